@@ -255,6 +255,17 @@ class GEA:
             need |= P.phi_locals(pv.def_term(d))
         self.tracked |= need
         self.tracked &= (pv.phi_locals | {0})
+        # a tracked local defined as a copy of / an aggregate over other multi-def locals: track those too, so that a
+        # value is resolved all the way down under a valuation (nested `if let` / desugared combinator results)
+        changed = True
+        while changed:
+            changed = False
+            for l in list(self.tracked):
+                for d in pv.defsites.get(l, []):
+                    for l2 in P.phi_locals(pv.def_term(d)):
+                        if l2 in pv.phi_locals and l2 not in self.tracked and l2 != l:
+                            self.tracked.add(l2)
+                            changed = True
 
     def atom_deps(self, atom):
         """Module-level atom_deps plus: a value handed out by `&mut` depends on its mutator calls."""
@@ -512,8 +523,10 @@ class GEA:
                     return term
                 return self.resolve_phis(dt, val, _busy | {term[1]})
             return term
-        if h in ("ok", "err"):
-            return (h, self.resolve_phis(term[1], val, _busy))
+        if h == "ok":
+            return P.mk_ok(self.resolve_phis(term[1], val, _busy))
+        if h == "err":
+            return P.mk_err(self.resolve_phis(term[1], val, _busy))
         if h == "mut":
             return (h, term[1], term[2], self.resolve_phis(term[3], val, _busy))
         if h in ("field", "variant"):
@@ -577,6 +590,9 @@ class GEA:
                         if r[1][1] in P.STD_SUM_TYPES:
                             vname = norm_variant_name(vname)
                         return [(tg, val) for tg, vs in arms.items() if vname in vs]
+                    if r[0] == "call" and r[1] == P.FROM_RESIDUAL:
+                        # a value built by `?` from a residual is an Err / None / Break by construction
+                        return [(tg, val) for tg, vs in arms.items() if "err" in vs]
                     atom = ("VARIANT", P.strip_ok_preserving(r))
                     if atom not in self.atoms:
                         self.atoms[atom] = [bb]
